@@ -100,12 +100,22 @@ def tasks(tier, seed):
     if tier == 'thorough':
         zones += sorted(z for z in zoneinfo.available_timezones()
                         if z not in zones)
-    return [(z, path) for z in zones]
+    # the zone selected AFTER the library was imported (os.environ + tzset)
+    late = [('UTC', z) for z in RIGHT_TZ + ['America/New_York',
+                                            'Australia/Lord_Howe']]
+    late += [(z, 'UTC') for z in RIGHT_TZ[:1] + ['America/New_York']]
+    late += [('America/New_York', z) for z in RIGHT_TZ[-1:]]
+    return [(z, path) for z in zones] + \
+        [('%s>%s' % pair, path) for pair in late]
 
 
 def run(task, ctx):
     tz, path = task
     env = dict(os.environ, TZ=tz)
+    env.pop('MC_TZ_LATE', None)
+    if '>' in tz:
+        first, later = tz.split('>')
+        env.update(TZ=first, MC_TZ_LATE=later)
     out = subprocess.run([sys.executable, '-m', 'mc.tzchild', path],
                          capture_output=True, text=True, env=env,
                          timeout=1200)
